@@ -168,3 +168,19 @@ def check_dual_for_obligation(api, chk, ob, grid, sig_of):
             if sp.global_dof_count != req["ndofs"]:
                 fail("dof_count", "%s has %d dofs, %d edges selected" % (k, sp.global_dof_count, req["ndofs"]))
             check_bary_conformity(sp, fail, k, k)
+            # the same with the normals of one domain swapped (whole closed grids): every barycentric child carries the normal multiplier of its
+            # parent element, and the space stays conforming (RBC: judged across edges between equally oriented elements)
+            doms = sorted(set(int(x) for x in grid.domain_indices))
+            if ob["mode"] == "all" and len(doms) > 1:
+                try:
+                    sps = rs.make_space(api, grid, ob, k, swapped=[doms[-1]])
+                except Exception as exc:
+                    if "connected only by a vertex" in str(exc):
+                        chk.part("rejected_inputs", bc_swapped_vertex_connected_only=1)      # loudly rejected, not judged
+                        continue
+                    raise
+                want = np.repeat(np.where(np.asarray(grid.domain_indices) == doms[-1], -1, 1), 6)
+                if not np.array_equal(np.asarray(sps.normal_multipliers), want):
+                    fail("normal_multipliers", "%s with swapped_normals=[%d]: the barycentric children do not carry the normal multipliers of their parents" % (k, doms[-1]))
+                else:
+                    check_bary_conformity(sps, fail, k + " swapped normals", k)
